@@ -163,7 +163,12 @@ def run(ctx):
                    "compared with a new reader object and with the decoder-state model (request 1002).")
     res["samples"] = [C.describe_history(h) for h in histories[len(CORPUS):len(CORPUS) + 5]]
     res["clauses"] = {
-        "theorem": ["SCC READER REUSE (wave 7, over the decoder model): a read() of an SCCReader object in ANY state returns what "
+        "theorem": ["READER OBJECT STATE (round 4, model/ReaderReuse.v): SAMI line / first_alignment, DFXP nodes, MicroDVD fps, WebVTT "
+                    "previous start under its options - every history of documents on one object incl. raising reads gives the "
+                    "fresh-object results under the code's resets; redundant resets identified; partial resets refuted by "
+                    "two-document witnesses (C10_par_/C10_mdvd_/C10_vtt_reader_history_isolated, ..._refuted); executed against "
+                    "the real reused readers (request 1003)",
+                    "SCC READER REUSE (wave 7, over the decoder model): a read() of an SCCReader object in ANY state returns what "
                     "a new object returns, for every document / offset, provided the reset covers the twelve decoder fields; "
                     "lifted to every history of documents incl. refused ones; the code's reset covers them; refuted for "
                     "no reset and for six single-field omissions (C10_scc_read_independent_of_reader_state, "
@@ -609,7 +614,7 @@ def reader_state_stream(ctx, res):
     the fresh read agrees with the model); per reset field: on how many sequences leaving it out would change a result."""
     import random
     rng = random.Random(ctx.rng.getrandbits(64))
-    n = ctx.n(36, 200)
+    n = ctx.n(60, 300)
     dist = res["distribution"].setdefault("reader_object_state", {})
     for machine in ("vtt", "mdvd", "sami", "dfxp"):
         cases = [_gen_obj_case(rng, machine) for _ in range(n)]
